@@ -77,6 +77,15 @@ def _r11_1(ctx, P):
                 ctx.report("R11.1", init, "definition with all options", f"raises {o.value}: an option of {OPTIONS} is not accepted at definition time")
                 continue
             me = o.env.get("self")
+            sg = me.attrs.get("signature")
+            src = sg.attrs.get("src") if isinstance(sg, Obj) else None
+            if not (isinstance(src, list) and len(src) == 2 and isinstance(src[0], Obj) and src[0].name == "userfunc" and src[1] == "(X:center)->(X:left)"):
+                ctx.report("R11.1", init, "definition stores the signature", f"the signature of the ufunc is not derived from (the function, the signature text) in that order (found {src!r})")
+            else:
+                ctx.ok("R11.1", "definition stores the signature", "from the function's hints or the text")
+            uf = me.attrs.get("ufunc")
+            if not (isinstance(uf, Obj) and uf.name == "userfunc"):
+                ctx.report("R11.1", init, "definition stores the function", f"the wrapped function is not stored (found {uf!r})")
             for opt in OPTIONS:
                 if me.attrs.get(opt) != Sym("DEF_" + opt):
                     ctx.report("R11.1", init, f"definition stores {opt}", f"the definition-time `{opt}` is not stored on the GridUFunc (found {me.attrs.get(opt)!r})")
@@ -90,6 +99,36 @@ def _r11_1(ctx, P):
             ctx.report("R11.1", init, "definition with an unknown option", "an unknown keyword is silently accepted at definition time")
     except Unmodelled as e:
         ctx.unknown("R11.1", "GridUFunc.__init__", str(e))
+
+    # -- an option given neither at definition nor at call: the ufunc must behave like apply_as_grid_ufunc called without it,
+    #    i.e. what the constructor stores by default equals that function's own default (two sibling default tables)
+    from ..registry import gridufunc_attrs
+
+    try:
+        stored = gridufunc_attrs(P, {})
+        app = P.func("grid_ufunc:apply_as_grid_ufunc")
+        a = app.node.args
+        names = [x.arg for x in a.posonlyargs + a.args]
+        defaults = dict(zip(names[len(names) - len(a.defaults):], a.defaults))
+        defaults.update({x.arg: d for x, d in zip(a.kwonlyargs, a.kw_defaults) if d is not None})
+        mod = P.module("grid_ufunc")
+        for opt in OPTIONS:
+            inst = f"default of {opt}"
+            if opt not in defaults:
+                ctx.unknown("R11.1", inst, f"apply_as_grid_ufunc has no default for `{opt}`")
+                continue
+            try:
+                want = P.fold(defaults[opt], mod)
+            except ValueError:
+                ctx.unknown("R11.1", inst, "default of apply_as_grid_ufunc is not a constant")
+                continue
+            if opt not in stored or stored[opt] != want or type(stored[opt]) != type(want):
+                ctx.report("R11.1", init, inst, f"a GridUFunc defined without `{opt}` stores {stored.get(opt, '<nothing>')!r}, but apply_as_grid_ufunc called without it uses {want!r}: "
+                           "an option that is not bound does not act as if it had not been passed")
+            else:
+                ctx.ok("R11.1", inst, f"{want!r} in both tables")
+    except Unmodelled as e:
+        ctx.unknown("R11.1", "defaults", str(e))
 
     # -- call: bound options reach apply_as_grid_ufunc; call-time overrides
     def run_call(call_kwargs):
@@ -226,6 +265,9 @@ def _r11_2(ctx, P):
         ([("X",)], [(S("A"),), (S("B"),)], "raise"),
         ([("X", "Y")], [(S("A"),)], "raise"),
         ([("X",), ("Y",)], [(S("A"),), (S("A"),)], "raise"),
+        # the per-argument counts differ although the totals of distinct names agree
+        ([("X", "Y"), ("X",)], [(S("A"),), (S("A"), S("B"))], "raise"),
+        ([("X",)], [(S("A"), S("A"))], "raise"),
     ]
     ev = Evaluator(P)
     for names, axis, want in cases:
